@@ -30,7 +30,7 @@ ASSUMPTIONS = [
 
 _STATES = None
 # the generator member `ga` (driven by list()) takes part with a lower weight
-GFNS = ["fa", "fb", "fc", "fa", "fb", "fc", "ga"]
+GFNS = ["fa", "fb", "fc", "fa", "fb", "fc", "ga", "ha", "hb"]
 
 
 def _states():
